@@ -26,8 +26,11 @@ Clause → theorem
   (what `error_cost > 0` really detects), `has_error_full_false` (the full statement fails on the
   unchanged code: an ERROR leaf has cost 0), `has_error_fixed_iff` (the full statement holds for
   the repaired `ts_node_has_error` of fixes/C02-has-error-leaf.diff)
-* OPEN (judged on every real tree, not proved): termination of parsing; row/column = newline
-  counting (`rowcol`); padding is skipped whitespace; literal tokens spell their literal.
+* row/column = newline counting ....................................... `rowcol_by_newlines` (with
+  `yields_total`, `extentOf_snoc`): if every LEAF's padding and size measure consecutive pieces of the
+  text, every node's start/end computed by adding relative lengths is (offset, newline-counted point)
+* OPEN (judged on every real tree, not proved): termination of parsing; that the lexer's leaves do
+  measure the text (`Yields`, needs the lexer model); padding is skipped whitespace; literal tokens.
 
 Boundary conventions: positions are byte offsets of the start of a subtree's padding; the
 content of a node is `[pos + padding, pos + padding + size)`; "ERROR" means symbol 65535
@@ -112,6 +115,103 @@ theorem tiles (d : NodeData) (c : Tree) (rest : List Tree) (pos : Length)
   rw [hp, hs]
   simp only [layoutEnd, kidsPadding, kidsSize, Tree.totalSize]
   rw [← length_add_assoc, layoutEnd_restSize]
+
+mutual
+  /-- `yields_total`: a summarized tree that spells `s` has total size (padding + size, in bytes,
+  rows and columns) equal to the measure of `s`; its children laid out from any position end at
+  that position plus the measure. -/
+  theorem yields_total : ∀ (t : Tree) (s : List Nat), Sized t → Yields t s → t.totalSize = measure s
+    | .mk d [], s, _, hy => by
+      cases hy with
+      | leaf _ p q hp hs => simp [Tree.totalSize, Tree.data, hp, hs, measure_append]
+    | .mk d (c :: rest), s, hs, hy => by
+      cases hy with
+      | node _ _ _ _ hl =>
+        unfold Sized at hs
+        have hps := hs.1 (by simp)
+        have ht := tiles d c rest length_zero hps.1 hps.2
+        have hl' := yieldsL_layout (c :: rest) s length_zero hs.2 hl
+        rw [hl', length_add_zero_left] at ht
+        simp only [Tree.totalSize, Tree.data]
+        rw [length_add_zero_left] at ht
+        exact ht.symm
+  theorem yieldsL_layout : ∀ (kids : List Tree) (s : List Nat) (pos : Length), SizedL kids → YieldsL kids s →
+      layoutEnd kids pos = length_add pos (measure s)
+    | [], s, pos, _, hy => by
+      cases hy with
+      | nil => simp [layoutEnd, measure, extentOf, length_add, point_add, point__new]
+    | c :: rest, s, pos, hs, hy => by
+      cases hy with
+      | cons _ _ s1 s2 h1 h2 =>
+        unfold SizedL at hs
+        simp only [layoutEnd]
+        rw [yields_total c s1 hs.1 h1, yieldsL_layout rest s2 _ hs.2 h2, measure_append, length_add_assoc]
+end
+
+
+mutual
+  theorem rowcol_aux : ∀ (t : Tree) (s pre post text : List Nat) (pos : Length), Sized t → Yields t s →
+      text = pre ++ s ++ post → pos = measure pre → AllAt text t pos
+    | .mk d [], s, pre, post, text, pos, _, hy, ht, hp => by
+      cases hy with
+      | leaf _ p q hpad hsz =>
+        unfold AllAt
+        subst hp ht
+        refine ⟨?_, ?_, by unfold AllAtL; trivial⟩
+        · rw [hpad, ← measure_append, measure_bytes, measure_bytes]
+          have : pre ++ (p ++ q) ++ post = (pre ++ p) ++ (q ++ post) := by simp
+          rw [this, ← List.length_append, posAt_prefix]
+        · rw [hpad, hsz, ← measure_append, ← measure_append, measure_bytes, measure_bytes, measure_bytes]
+          have : pre ++ (p ++ q) ++ post = (pre ++ p ++ q) ++ post := by simp
+          rw [this, ← List.length_append, ← List.length_append, posAt_prefix]
+    | .mk d (c :: rest), s, pre, post, text, pos, hs, hy, ht, hp => by
+      have htot := yields_total (.mk d (c :: rest)) s hs hy
+      cases hy with
+      | node _ _ _ _ hl =>
+        have hs' := hs
+        unfold Sized at hs'
+        have hps := hs'.1 (by simp)
+        have hk := rowcolL_aux (c :: rest) s pre post text pos hs'.2 hl ht hp
+        unfold AllAt
+        refine ⟨?_, ?_, hk⟩
+        · -- the node starts where its first child starts
+          unfold AllAtL at hk
+          obtain ⟨cd, ck⟩ := c
+          have h1 := hk.1
+          unfold AllAt at h1
+          simp only [kidsPadding, Tree.data] at hps
+          rw [hps.1]
+          exact h1.1
+        · simp only [Tree.totalSize, Tree.data] at htot
+          have hb : d.padding.bytes + d.size.bytes = s.length := by
+            have := congrArg Length.bytes htot
+            simpa [length_add_bytes, measure_bytes] using this
+          subst hp ht
+          rw [length_add_assoc, htot, ← measure_append, measure_bytes]
+          have : (pre.length + d.padding.bytes + d.size.bytes) = (pre ++ s).length := by
+            simp [List.length_append]; omega
+          rw [this, posAt_prefix]
+  theorem rowcolL_aux : ∀ (kids : List Tree) (s pre post text : List Nat) (pos : Length), SizedL kids → YieldsL kids s →
+      text = pre ++ s ++ post → pos = measure pre → AllAtL text kids pos
+    | [], _, _, _, _, _, _, _, _, _ => by unfold AllAtL; trivial
+    | c :: rest, s, pre, post, text, pos, hs, hy, ht, hp => by
+      cases hy with
+      | cons _ _ s1 s2 h1 h2 =>
+        unfold SizedL at hs
+        unfold AllAtL
+        refine ⟨rowcol_aux c s1 pre (s2 ++ post) text pos hs.1 h1 (by rw [ht]; simp) hp, ?_⟩
+        apply rowcolL_aux rest s2 (pre ++ s1) post text _ hs.2 h2 (by rw [ht]; simp)
+        rw [yields_total c s1 hs.1 h1, hp, measure_append]
+end
+
+/-- `rowcol_by_newlines`: if the tree spells the text (`Yields root text`: each leaf's padding and
+size are the measures of consecutive pieces of text) and inner nodes carry the summaries, then for
+EVERY node — hidden ones included — the start and end positions obtained by adding relative
+lengths along the path are exactly (byte offset, row/column counted by newlines in the text). -/
+theorem rowcol_by_newlines (root : Tree) (text : List Nat) (hs : Sized root) (hy : Yields root text) :
+    AllAt text root length_zero :=
+  rowcol_aux root text [] [] text length_zero hs hy (by simp) (by simp [measure, extentOf, length_zero])
+
 
 /-- `missing_empty`: a MISSING leaf built by the port of `ts_subtree_new_missing_leaf` is empty
 (zero bytes, rows and columns), is marked missing, and costs 610 — whatever the language, symbol,
@@ -405,6 +505,11 @@ theorem has_error_full_false :
   · decide
 
 /-! ## Non-vacuity: a two-level tree built by the port satisfies the hypotheses -/
+
+/-- A leaf whose padding is a newline and whose content is `ab` spells `\nab`; its start is row 1. -/
+example : Yields (.mk { (default : NodeData) with padding := ⟨1, ⟨1, 0⟩⟩, size := ⟨2, ⟨0, 2⟩⟩ } []) ([10] ++ [97, 98]) :=
+  Yields.leaf _ [10] [97, 98] (by decide) (by decide)
+
 
 /-- A tiny language: symbol 1 = visible named token, 2 = visible named rule, 3 = hidden rule. -/
 def demoLang : Lang :=
